@@ -308,7 +308,7 @@ func (r *runner) run(deadline time.Time) (*aggregate, error) {
 						record(&violRec{Sig: "crash|" + r.groups[g] + "|" + tagOf(w.hbPath) + "|" + cls, G: g, I: i, Detail: headTail(w.stderr.String()), N: 1, Crash: true})
 					}
 					queue = append([]job{{g, i + 1}}, queue...)
-					if agg.crashes > 400 {
+					if agg.crashes > 60 {
 						// stop exploring: what was recorded so far is still reported (crashes are violations)
 						agg.complete = false
 						agg.aborted = fmt.Sprintf("exploration stopped after %d worker deaths", agg.crashes)
